@@ -36,6 +36,8 @@ func tmplString(t []KPiece) string {
 			sb.WriteString("{@}")
 		case "name":
 			sb.WriteString("{" + p.Text + "}")
+		case "eqline":
+			fmt.Fprintf(&sb, "{eq {line} %d}", p.Idx)
 		}
 	}
 	return sb.String()
@@ -56,6 +58,8 @@ func tmplCoq(t []KPiece) string {
 			ps[i] = "KArr"
 		case "name":
 			ps[i] = "Nm " + HS(p.Text)
+		case "eqline":
+			ps[i] = fmt.Sprintf("KEqLine %d%%N", p.Idx)
 		}
 	}
 	return CoqList(ps)
@@ -393,6 +397,13 @@ func GenC01(r *Rng, n int, tier string) []PipeIn {
 			if r.Chance(1, 4) {
 				in.Ignore = append([][]KPiece{{{Kind: "group", Idx: 5}}}, in.Ignore...)
 			}
+		}
+		if r.Chance(1, 3) { // ignore expressions that depend on the POSITION of the line ({line}), alone or before the others
+			pos := [][]KPiece{{{Kind: "eqline", Idx: 1 + r.Intn(4)}}}
+			if r.Bool() {
+				pos = append(pos, []KPiece{{Kind: "eqline", Idx: 1 + r.Intn(12)}})
+			}
+			in.Ignore = append(pos, in.Ignore...)
 		}
 		maxLines := 30
 		if r.Chance(1, 10) {
